@@ -215,6 +215,7 @@ impl TxMap {
 }
 // --- RocksDB
 pub enum Op { Put(Seq<u8>, Seq<u8>), Del(Seq<u8>) }
+pub uninterp spec fn committed(ops: Seq<Op>) -> bool;       // evidence that a batch with exactly these operations was committed (produced only by Batch::commit)
 #[derive(Debug)]
 pub struct DbError { pub x: u8 }
 // --- comparing write batches up to the order of operations on DIFFERENT key spaces.  The first byte of a key is its key space
@@ -309,7 +310,7 @@ impl Batch {
     #[verifier::external_body]
     pub fn commit(self) -> (r: core::result::Result<(), DbError>)
         requires commit_ok(self.ops)
-        ensures r is Ok { unimplemented!() }
+        ensures r is Ok, committed(self.ops) { unimplemented!() }
 }
 // rocksdb::DB seen as one snapshot; iterator(mode) yields the entries from the start key in key order (reverse: downwards)
 pub enum Direction { Forward, Reverse }
